@@ -345,6 +345,17 @@ func txImpersonation(s *Stream) {
 	// ... and changes the writer list in the name of the silent owner Q's topic (Q creates it properly first)
 	run(&aoltypes.MsgCreateTopicRequest{TopicName: "q2", Description: "d", OwnerAddress: Q.Bech()}, SignerSpec{Acct: Q})
 	run(&aoltypes.MsgAddWriterRequest{TopicName: "q2", Moniker: "m", WriterAddress: S.Bech(), OwnerAddress: Q.Bech()}, SignerSpec{Acct: Q, ForeignKey: S})
+	// the upper-case spelling of the silent owner's address (admitted by bech32) in a transaction that only the stranger
+	// signs — as explicit fee payer, so that there is a signature at all
+	up := strings.ToUpper(Q.Bech())
+	for _, m := range []sdk.Msg{
+		&aoltypes.MsgAddWriterRequest{TopicName: "q2", Moniker: "m", WriterAddress: S.Bech(), OwnerAddress: up},
+		&aoltypes.MsgDeleteWriterRequest{TopicName: "q2", WriterAddress: S.Bech(), OwnerAddress: up},
+		&aoltypes.MsgCreateTopicRequest{TopicName: "q3", Description: "d", OwnerAddress: up},
+	} {
+		e.deliver(txPlan{msgs: []sdk.Msg{m}, signers: []SignerSpec{{Acct: S}}, fee: 1, payer: S.Bech(), mode: signing.SignMode_SIGN_MODE_DIRECT})
+		e.state()
+	}
 	// the real writer appends
 	run(&aoltypes.MsgAddRecordRequest{TopicName: "t", Key: []byte("k"), Value: []byte("v"), WriterAddress: V.Bech(), OwnerAddress: O.Bech()}, SignerSpec{Acct: V})
 	e.c.End()
